@@ -372,34 +372,44 @@ SolAny == \E c \in SolCases : InShard(Len(c.solutes) + RatNum(c.xs[1]) + RatNum(
 (***************************************************************************)
 FromSolvIsVessel(c) == c.solvent \in Names
 
-FromParts(c) ==
-  LET sc == ves[c.src].w[1].c
+FromPartsV(V, c) ==
+  LET sc == V[c.src].w[1].c
       px == Scale(sc, c.fx)
-      py == IF FromSolvIsVessel(c) THEN Scale(ves[c.solvent].w[1].c, c.y) ELSE Only(c.solvent, c.y)
+      py == IF FromSolvIsVessel(c) THEN Scale(V[c.solvent].w[1].c, c.y) ELSE Only(c.solvent, c.y)
   IN  [px |-> px, py |-> py, x |-> Plus(px, py)]
+FromParts(c) == FromPartsV(ves, c)
 
-FromClass(c) ==
-  LET P == FromParts(c) IN
-  IF IsZero(ves[c.src].w[1].c[c.solute]) THEN "no_solute"
+FromClassV(V, c) ==
+  LET P == FromPartsV(V, c) IN
+  IF IsZero(V[c.src].w[1].c[c.solute]) THEN "no_solute"
   ELSE IF IsNeg(c.fx) \/ IsNeg(c.y) THEN "conc_unreachable"
   ELSE IF Lt(One, c.fx) \/ (FromSolvIsVessel(c) /\ Lt(One, c.y)) THEN "stock_exceeded"
   ELSE IF IsZero(c.y) \/ IsZero(c.fx) \/ c.fx = One \/ (FromSolvIsVessel(c) /\ c.y = One) THEN "boundary"
   ELSE "interior"
+FromClass(c) == FromClassV(ves, c)
+
+\* the request as a function of the state: what is stated (t, total), the verdict and the state that results
+FromV(V, c) ==
+  LET cls == FromClassV(V, c)
+      ok == Feasible(cls)
+      P == FromPartsV(V, c)
+      V1 == [V EXCEPT ![c.n] = [cap |-> Inf, w |-> <<MkWell(P.x)>>]]
+      V2 == [V1 EXCEPT ![c.src].w[1] = MkWell(Minus(V[c.src].w[1].c, P.px))]
+      V3 == IF FromSolvIsVessel(c) THEN [V2 EXCEPT ![c.solvent].w[1] = MkWell(Minus(V[c.solvent].w[1].c, P.py))] ELSE V2
+  IN  [ok |-> ok, cls |-> cls, V |-> IF ok THEN V3 ELSE V, x |-> P.x,
+       t |-> IF IsZero(Measure(P.x, c.du)) THEN Zero ELSE Conc(P.x, c.solute, c.nu, c.du), total |-> Measure(P.x, c.tu)]
 
 CreateSolutionFrom(c) ==
-  LET cls == FromClass(c)
-      ok == Feasible(cls)
-      P == FromParts(c)
-      t == IF IsZero(Measure(P.x, c.du)) THEN Zero ELSE Conc(P.x, c.solute, c.nu, c.du)
-      tot == Measure(P.x, c.tu)
-      V1 == [ves EXCEPT ![c.n] = [cap |-> Inf, w |-> <<MkWell(P.x)>>]]
-      V2 == [V1 EXCEPT ![c.src].w[1] = MkWell(Minus(ves[c.src].w[1].c, P.px))]
-      V3 == IF FromSolvIsVessel(c) THEN [V2 EXCEPT ![c.solvent].w[1] = MkWell(Minus(ves[c.solvent].w[1].c, P.py))] ELSE V2
+  LET r == FromV(ves, c)
+      cls == r.cls
+      ok == r.ok
+      t == r.t
+      tot == r.total
   IN  /\ IsPos(tot) /\ IsPos(t)
-      /\ ves' = IF ok THEN V3 ELSE ves
+      /\ ves' = r.V
       /\ last' = [op |-> "create_solution_from", src |-> c.src, n |-> c.n, solute |-> c.solute,
                   solvent |-> c.solvent, solvIsVessel |-> FromSolvIsVessel(c), nu |-> c.nu, du |-> c.du,
-                  tu |-> c.tu, t |-> t, total |-> tot, fx |-> c.fx, y |-> c.y, x |-> P.x,
+                  tu |-> c.tu, t |-> t, total |-> tot, fx |-> c.fx, y |-> c.y, x |-> r.x,
                   stockConc |-> IF IsZero(Measure(ves[c.src].w[1].c, c.du)) THEN Zero
                                 ELSE Conc(ves[c.src].w[1].c, c.solute, c.nu, c.du),
                   ncomp |-> Cardinality(Support(ves[c.src].w[1].c)),
